@@ -109,10 +109,11 @@ func (i *itemsValidator) Validate(index int, data interface{}) *Result {
 		}
 
 		validator.SetPath(path)
-		err := validator.Validate(data)
 		if i.Options.recycleValidators {
-			i.validators[idx] = nil // prevents further (unsafe) usage
+			// prevents further (unsafe) usage: a recycled validator redeems itself, even when it panics
+			i.validators[idx] = nil
 		}
+		err := validator.Validate(data)
 		if err != nil {
 			result.Inc()
 			if err.HasErrors() {
@@ -393,10 +394,11 @@ func (p *HeaderValidator) Validate(data interface{}) *Result {
 			continue
 		}
 
-		err := validator.Validate(data)
 		if p.Options.recycleValidators {
-			p.validators[idx] = nil // prevents further (unsafe) usage
+			// prevents further (unsafe) usage: a recycled validator redeems itself, even when it panics
+			p.validators[idx] = nil
 		}
+		err := validator.Validate(data)
 		if err != nil {
 			if err.HasErrors() {
 				result.Merge(err)
@@ -585,10 +587,11 @@ func (p *ParamValidator) Validate(data interface{}) *Result {
 			continue
 		}
 
-		err := validator.Validate(data)
 		if p.Options.recycleValidators {
-			p.validators[idx] = nil // prevents further (unsafe) usage
+			// prevents further (unsafe) usage: a recycled validator redeems itself, even when it panics
+			p.validators[idx] = nil
 		}
+		err := validator.Validate(data)
 		if err != nil {
 			if err.HasErrors() {
 				result.Merge(err)
